@@ -153,6 +153,20 @@ static long elem_at(const buffer *b, size_t k)
 	return *p;
 }
 
+
+/* "ok" while every buffer's reference count equals the number of handles holding it */
+static const char *refs_state(void)
+{
+	for (int i = 0; i < nh; i++) {
+		buffer *b = hbuf(i);
+		long n = 0;
+		if (!b) continue;
+		for (int k = 0; k < nh; k++) if (hbuf(k) == b) ++n;
+		if (seam_refcount(b) != n) return "bad";
+	}
+	return "ok";
+}
+
 static void emit_all(const char *ret, const long *out, size_t outlen)
 {
 	const char *fr = frozen_state();
@@ -178,6 +192,7 @@ static void emit_all(const char *ret, const long *out, size_t outlen)
 	for (int i = 0; i < nh; i++) j_item_str(name_of(hbuf(i)));
 	j_arr_close();
 	j_str("frozen", fr);
+	j_str("refok", refs_state());
 }
 static void emit_dbg(size_t size0, size_t used0, long long rc)
 {
@@ -292,18 +307,39 @@ static void step_xarr(struct cmd *c, int h, uint8_t *data, size_t dl, size_t siz
 		size_t off = drv_size(c, "off", 0), len = drv_size(c, "len", 0);
 		/* the slice takes the array over (sole holder of what the handle held), its
 		 * window is set with shift/trim, and the handle gets the slice's array back */
-		XSlice sl(ar);
-		size_t total = sl.len();   /* what the slice class regards as the data (raw content) */
-		if (off + len > total) { answer(c, "skipped", 0, 0, size0, used0, 0); return; }
+		XSlice *sl = new XSlice(ar);
+		size_t total = sl->len();   /* what the slice class regards as the data (raw content) */
+		if (off + len > total) { delete sl; answer(c, "skipped", 0, 0, size0, used0, 0); return; }
 		static_cast<array &>(ar) = array();
-		bool w = sl.shift((ssize_t) off) && sl.trim((ssize_t) (total - off - len));
-		ssize_t r = w ? sl.write(drv_size(c, "nblk", 0), zero ? 0 : data, drv_size(c, "esz", 1)) : -1000;
-		static_cast<array &>(ar) = static_cast<const array &>(sl);
+		bool w = sl->shift((ssize_t) off) && sl->trim((ssize_t) (total - off - len));
+		ssize_t r = w ? sl->write(drv_size(c, "nblk", 0), zero ? 0 : data, drv_size(c, "esz", 1)) : -1000;
+		static_cast<array &>(ar) = static_cast<const array &>(*sl);
+		span<const uint8_t> d = sl->data();
+		size_t dn = r < 0 ? 0 : d.size();
+		uint8_t *keep = (uint8_t *) calloc(dn + 1, 1);
+		if (dn) memcpy(keep, d.begin(), dn);
+		delete sl;                  /* the handle is the only holder again */
 		if (r < 0) answer(c, w ? "refused" : "window", 0, 0, size0, used0, r);
-		else {
-			span<const uint8_t> d = sl.data();
-			answer_bytes(c, "ok", d.begin(), d.size(), size0, used0, r);
+		else answer_bytes(c, "ok", keep, dn, size0, used0, r);
+		free(keep);
+	}
+	else if (!strcmp(a, "xwin")) {
+		/* slice window arithmetic: a slice over the whole array, then shift/trim calls (k: 0 shift, 1 trim);
+		 * after every call: accepted?, window offset, window length */
+		size_t nl = 0;
+		long long *ops = drv_ints(c, "ops", &nl);
+		long out[32];
+		size_t no = 0;
+		XSlice *sl = new XSlice(ar);
+		for (size_t k = 0; k + 1 < nl && no + 3 <= 32; k += 2) {
+			bool r = ops[k] ? sl->trim((ssize_t) ops[k + 1]) : sl->shift((ssize_t) ops[k + 1]);
+			out[no++] = r ? 1 : 0;
+			out[no++] = (long) sl->off();
+			out[no++] = (long) sl->len();
 		}
+		delete sl;
+		free(ops);
+		answer(c, "ok", out, no, size0, used0, 0);
 	}
 	else if (!strcmp(a, "bufinsert")) {
 		if (!b || b->shared()) { answer(c, "skipped", 0, 0, size0, used0, 0); return; }
